@@ -588,14 +588,27 @@ Definition is_predefined (n : tname) : bool := memb n predefined_names.
 
 (* the type system a list of declarations builds on top of `base` (TypeSystem() for a document loaded without a type
    system): ancestors through the declared supertypes, effective features = declared ones, then the supertype's.
-   Declarations of names that `base` already has are ignored, as the reader does for predefined types. *)
+   A declaration of a name that `base` already has (DocumentAnnotation, predefined types) creates no type but its
+   features are added to the existing one (_parse_features runs for every declared type). *)
+Definition jt_extra (jts : list jtype) (n : tname) (have : list fdecl) : list fdecl :=
+  match jt_find jts n with
+  | Some jt => filter (fun fd => negb (existsb (fun g => String.eqb (fd_name g) (fd_name fd)) have)) (map jdecl_of (jt_feats jt))
+  | None => []
+  end.
 Fixpoint jt_info (fuel : nat) (base : schema) (jts : list jtype) (n : tname) : option tinfo :=
-  match sch_find base n with
-  | Some ti => Some ti
-  | None =>
-    match fuel with
-    | O => None
-    | S k =>
+  match fuel with
+  | O => None
+  | S k =>
+    match sch_find base n with
+    | Some ti =>
+        (* features added to ancestors that `base` has reach the type through the chain *)
+        let inherited := match ti_anc ti with
+                         | _ :: p :: _ => match jt_info k base jts p with Some pi => ti_feats pi | None => [] end
+                         | _ => [] end in
+        let feats := ti_feats ti ++ jt_extra jts n (ti_feats ti) in
+        Some (mkTi n (ti_anc ti)
+                   (feats ++ filter (fun fd => negb (existsb (fun g => String.eqb (fd_name g) (fd_name fd)) feats)) inherited))
+    | None =>
       match jt_find jts n with
       | Some jt =>
           match jt_info k base jts (jt_super jt) with
@@ -607,7 +620,5 @@ Fixpoint jt_info (fuel : nat) (base : schema) (jts : list jtype) (n : tname) : o
     end
   end.
 Definition schema_of_jtypes (base : schema) (jts : list jtype) : schema :=
-  flat_map (fun jt => match sch_find base (jt_name jt) with
-                      | Some _ => []
-                      | None => match jt_info (S (List.length jts)) base jts (jt_name jt) with Some ti => [ti] | None => [] end
-                      end) jts ++ base.
+  flat_map (fun jt => match jt_info (S (S (List.length jts + List.length base))) base jts (jt_name jt) with
+                      | Some ti => [ti] | None => [] end) jts ++ base.
